@@ -1,9 +1,11 @@
 (* Extract_subst.v -- extraction of the ec_substitute / replace / re_read / ex_arg model and of the matcher of
    ec_substitute over the regex model (SubstEngineDefs: rstr_make / rstr_find as modelled by RstrDefs, RsetDefs, ReVM)
+   and of the address / remembered-pattern interplay of :s (SubstAddrDefs: ex_region with its searches, then the head of ec_substitute)
    (ExtrOcamlBasic only). *)
 From Coq Require Import List NArith ZArith Extraction ExtrOcamlBasic.
-From NV Require Import Bytes UcDefs SubstDefs ReVM SubstEngineDefs.
+From NV Require Import Bytes UcDefs SubstDefs ReVM SubstEngineDefs SubstAddrDefs.
 Definition all_types : nat * N * Z := (0%nat, 0%N, 0%Z).
 Definition engine_depth : nat := ReVM.depth.
 Extraction "subst_model.ml" all_types re_read subst_args subst_setup ex_arg_s has_g expand scan subst_line flat_old flat_new
-  engine_depth engine_path engine_find engine_table.
+  engine_depth engine_path engine_find engine_table
+  a_region subst_head ec_subst.
